@@ -22,8 +22,14 @@ let parse_page (s : string) : z * page =
     (z_of_string idx, { p_acc = a; p_dat = List.rev !dat })
   | _ -> failwith "bad page"
 
-let parse_pages (s : string) : (z * page) list =
+let preset_a = "16:2:0=1122334455667788:4088=8899aabbccddeeff;17:1:0=0102030405060708:4090=a1a2a3a4a5a6;18:0:0=5a5a5a5a:4092=a5a5a5a5;20:2:4095=7f;32:2:8=ff"
+let preset_b = "16:2:0=1122334455667788:4088=8899aabbccddeeff;17:1:0=0102030405060708:4090=a1a2a3a4a5a6;20:2:4095=7f;32:2:8=ff"
+let parse_pages_raw (s : string) : (z * page) list =
   if s = "-" then [] else List.map parse_page (split_on ';' s)
+let pages_a = lazy (parse_pages_raw preset_a)
+let pages_b = lazy (parse_pages_raw preset_b)
+let parse_pages (s : string) : (z * page) list =
+  if s = "@A" then Lazy.force pages_a else if s = "@B" then Lazy.force pages_b else parse_pages_raw s
 
 let fmt_page ((idx, pg) : z * page) : string =
   let b = Buffer.create 64 in
@@ -97,13 +103,15 @@ let run_case (toks : string list) (impl : string) : string =
     | None -> "deblob-panic"
     | Some p ->
       let m = { m_pages = parse_pages pages; m_hp = z_of_string hp; m_hl = z_of_string hl } in
+      let before = fmt_mem m in
       let s = { regs = parse_regs regs; gas = z_of_string gas; mem = m } in
       let tabz = z_of_string tab in
       match run_h (host_tab tabz) big_fuel p (z_of_string pc) s [] with
       | None -> "FUEL"
       | Some (((e, pc'), s'), log) ->
         Printf.sprintf "%s %s %s %s %s %s %s" (fmt_exit p e pc' s' (first_token impl)) (zs pc') (fmt_regs s'.regs)
-          (zs s'.gas) (zs s'.mem.m_hp) (fmt_log tabz log) (fmt_mem s'.mem))
+          (zs s'.gas) (zs s'.mem.m_hp) (fmt_log tabz log)
+          (let after = fmt_mem s'.mem in if after = before then "=" else after))
   | [ "psim"; code; limit ] -> (
     match deblob (bytes_of_hex code) with
     | None -> "0 panic"
